@@ -127,11 +127,27 @@ fn stream_find(s: &S, rdr: &mut SchedReader<'_>) -> Result<Vec<io::Result<M>>, S
     }
     let cap = rdr.data.len() + 8;
     match s {
+        // (every other stream goes through the infallible twin where the configuration supports streams)
+        S::Top(a) if rdr.data.len() % 2 == 1 && stream_supported(a) => Ok(drain(a.stream_find_iter(rdr), cap)),
         S::Top(a) => a.try_stream_find_iter(rdr).map(|it| drain(it, cap)).map_err(|e| e.to_string()),
+        // (low-level automata: every other stream through the blanket `impl Automaton for &A`)
+        S::N(a) if by_ref(rdr) => (&a).try_stream_find_iter(rdr).map(|it| drain(it, cap)).map_err(|e| e.to_string()),
+        S::C(a) if by_ref(rdr) => (&a).try_stream_find_iter(rdr).map(|it| drain(it, cap)).map_err(|e| e.to_string()),
+        S::D(a) if by_ref(rdr) => (&a).try_stream_find_iter(rdr).map(|it| drain(it, cap)).map_err(|e| e.to_string()),
         S::N(a) => a.try_stream_find_iter(rdr).map(|it| drain(it, cap)).map_err(|e| e.to_string()),
         S::C(a) => a.try_stream_find_iter(rdr).map(|it| drain(it, cap)).map_err(|e| e.to_string()),
         S::D(a) => a.try_stream_find_iter(rdr).map(|it| drain(it, cap)).map_err(|e| e.to_string()),
     }
+}
+
+fn by_ref(rdr: &SchedReader<'_>) -> bool {
+    rdr.data.len() % 2 == 0
+}
+
+fn stream_supported(a: &aho_corasick::AhoCorasick) -> bool {
+    a.match_kind() == aho_corasick::MatchKind::Standard
+        && a.min_pattern_len() > 0
+        && a.start_kind() != aho_corasick::StartKind::Anchored
 }
 
 fn stream_replace(
@@ -142,6 +158,9 @@ fn stream_replace(
 ) -> io::Result<()> {
     match s {
         S::Top(a) => a.try_stream_replace_all(rdr, wtr, repl),
+        S::N(a) if by_ref(rdr) => (&a).try_stream_replace_all(rdr, wtr, repl),
+        S::C(a) if by_ref(rdr) => (&a).try_stream_replace_all(rdr, wtr, repl),
+        S::D(a) if by_ref(rdr) => (&a).try_stream_replace_all(rdr, wtr, repl),
         S::N(a) => a.try_stream_replace_all(rdr, wtr, repl),
         S::C(a) => a.try_stream_replace_all(rdr, wtr, repl),
         S::D(a) => a.try_stream_replace_all(rdr, wtr, repl),
@@ -165,6 +184,9 @@ fn stream_replace_with(
     };
     match s {
         S::Top(a) => a.try_stream_replace_all_with(rdr, wtr, f),
+        S::N(a) if by_ref(rdr) => (&a).try_stream_replace_all_with(rdr, wtr, f),
+        S::C(a) if by_ref(rdr) => (&a).try_stream_replace_all_with(rdr, wtr, f),
+        S::D(a) if by_ref(rdr) => (&a).try_stream_replace_all_with(rdr, wtr, f),
         S::N(a) => a.try_stream_replace_all_with(rdr, wtr, f),
         S::C(a) => a.try_stream_replace_all_with(rdr, wtr, f),
         S::D(a) => a.try_stream_replace_all_with(rdr, wtr, f),
